@@ -1,2 +1,649 @@
-// Package c17: check for property C17 (see /verif/DESIGN.md §3 C17).
+// Package c17: failures are never silent. E1 x E4: every fault kind at every
+// enumerated position, in every batch size, explored over ALL goroutine
+// schedules of the real pipeline. Oracles on every execution: the run
+// terminates (no deadlock / horizon / stall) and, whenever the fault is
+// certainly reached, it fails (non-nil error from Stream or a trapped non-zero
+// os.Exit) with a diagnostic. A real-binary layer pins the exit-status mapping.
 package c17
+
+import (
+	"bytes"
+	"errors"
+	"fmt"
+	"io"
+	"os"
+	"os/exec"
+	"path/filepath"
+	"strings"
+	"syscall"
+	"time"
+
+	"github.com/johnkerl/miller/v6/pkg/verifrt"
+
+	"verif/harness/vf"
+)
+
+func init() {
+	vf.Register(&vf.CheckDef{ID: "C17", Level: "fault_enumeration", Run: run,
+		Workers: map[string]vf.WorkerFunc{"sched": schedWorker, "binary": binaryWorker}})
+}
+
+const N = 4
+
+// ---------------------------------------------------------------- controlled I/O
+
+type failingReader struct {
+	data []byte
+	pos  int
+	lim  int // deliver this many bytes, then fail
+	err  error
+}
+
+func (r *failingReader) Read(p []byte) (int, error) {
+	if r.pos >= r.lim {
+		return 0, r.err
+	}
+	n := copy(p, r.data[r.pos:r.lim])
+	r.pos += n
+	return n, nil
+}
+func (r *failingReader) Close() error { return nil }
+
+type failingWriter struct {
+	buf    bytes.Buffer
+	writes int
+	failAt int // 1-up index of the Write call that fails (0 = never)
+	fired  bool
+}
+
+func (w *failingWriter) Write(p []byte) (int, error) {
+	w.writes++
+	if w.failAt > 0 && w.writes >= w.failAt {
+		w.fired = true
+		return 0, errors.New("verif: injected write failure (ENOSPC)")
+	}
+	return w.buf.Write(p)
+}
+func (w *failingWriter) Close() error { return nil }
+
+// ---------------------------------------------------------------- fault configurations
+
+type cfg struct {
+	Kind   string
+	Name   string   // canonical: kind:chain:position
+	Argv   []string // without --records-per-batch; "@T" tee path, "@D" dir
+	Files  vf.VFS
+	Must   bool           // the fault is certainly reached: every schedule must fail
+	ReadAt map[string]int // file -> byte count after which reads fail
+	FailW  int            // stdout write index that fails
+	Bs     []int
+}
+
+func dkvpRecs(het int) string {
+	var b strings.Builder
+	for i := 1; i <= N; i++ {
+		if i == het {
+			fmt.Fprintf(&b, "h=%d\n", i) // a different key: not a prefix of the first record's keys, so the CSV writer cannot fill it
+		} else {
+			fmt.Fprintf(&b, "i=%d,g=a\n", i)
+		}
+	}
+	return b.String()
+}
+
+func csvRecs(bad int, kind string) string {
+	var b strings.Builder
+	b.WriteString("i,g\n")
+	for i := 1; i <= N; i++ {
+		if i == bad {
+			switch kind {
+			case "ragged-short":
+				fmt.Fprintf(&b, "%d\n", i)
+			case "ragged-long":
+				fmt.Fprintf(&b, "%d,a,extra\n", i)
+			case "quote":
+				fmt.Fprintf(&b, "%d,\"a\n", i) // unterminated quote swallows the rest
+			}
+		} else {
+			fmt.Fprintf(&b, "%d,a\n", i)
+		}
+	}
+	return b.String()
+}
+
+func jsonRecs(bad int, kind string) string {
+	var b strings.Builder
+	for i := 1; i <= N; i++ {
+		if i == bad {
+			switch kind {
+			case "syntax":
+				fmt.Fprintf(&b, "{\"i\": %d, \"g\": }\n", i)
+			case "nonmap":
+				fmt.Fprintf(&b, "%d\n", i)
+			case "truncated":
+				fmt.Fprintf(&b, "{\"i\": %d, \"g\"\n", i)
+				return b.String()
+			}
+		} else {
+			fmt.Fprintf(&b, "{\"i\": %d, \"g\": \"a\"}\n", i)
+		}
+	}
+	return b.String()
+}
+
+func allBs() []int { return []int{1, 2, 3, 4, 5} }
+
+func configs(quick bool) []cfg {
+	var out []cfg
+	S := strings.Fields
+	add := func(c cfg) {
+		if c.Bs == nil {
+			c.Bs = allBs()
+			if quick {
+				c.Bs = []int{1, 2, 5}
+			}
+		}
+		out = append(out, c)
+	}
+	type chainT struct {
+		name string
+		args []string
+		must bool
+	}
+	full := []chainT{{"cat", S("cat"), true}, {"tac", S("tac"), true}, {"put", []string{"put", "$z=1"}, true}, {"head1", S("head -n 1"), false}, {"cat-then-head1", S("cat then head -n 1"), false}}
+	short := []chainT{{"cat", S("cat"), true}, {"head1", S("head -n 1"), false}}
+	positions := []int{1, 2, 3, 4}
+	// F1 malformed CSV rows
+	for _, kind := range []string{"ragged-short", "ragged-long", "quote"} {
+		chs := full
+		if kind != "ragged-short" {
+			chs = short
+		}
+		for _, p := range positions {
+			for _, ch := range chs {
+				must := ch.must || p == 1
+				if kind == "quote" && p == N {
+					// an unterminated quote on the last line: reaches EOF inside a quoted field
+				}
+				add(cfg{Kind: "csv-" + kind, Name: fmt.Sprintf("csv-%s:%s:p=%d", kind, ch.name, p), Argv: append(append(S("--icsv --ojson"), ch.args...), "/vfs/in.csv"),
+					Files: vf.VFS{"/vfs/in.csv": csvRecs(p, kind)}, Must: must})
+			}
+		}
+	}
+	// F2 malformed JSON
+	for _, kind := range []string{"syntax", "nonmap", "truncated"} {
+		for _, p := range positions {
+			for _, ch := range short {
+				add(cfg{Kind: "json-" + kind, Name: fmt.Sprintf("json-%s:%s:p=%d", kind, ch.name, p), Argv: append(append(S("--ijson --ojson"), ch.args...), "/vfs/in.json"),
+					Files: vf.VFS{"/vfs/in.json": jsonRecs(p, kind)}, Must: ch.must || p == 1})
+			}
+		}
+	}
+	// F3 record not expressible in the output format: CSV with a change in field count
+	for _, p := range []int{2, 3, 4} {
+		for _, ch := range []chainT{{"cat", S("cat"), true}, {"put", []string{"put", "$z=1"}, true}, {"tac", S("tac"), true}} {
+			add(cfg{Kind: "ocsv-schema", Name: fmt.Sprintf("ocsv-schema:%s:p=%d", ch.name, p), Argv: append(append(S("--ocsv"), ch.args...), "/vfs/in.dkvp"),
+				Files: vf.VFS{"/vfs/in.dkvp": dkvpRecs(p)}, Must: true})
+		}
+	}
+	// F4 DSL run-time failure at record p, failing verb in each chain position
+	progs := map[string]string{
+		"typed-local": `if (NR==%d) {int y = "abc"}`,
+		"srec-nonmap": `if (NR==%d) {$* = 3}`,
+		"ret-type":    `func f(str s): int { return s } if (NR==%d) {$y = f("a")}`,
+		"assertion":   `if (NR==%d) {$y = asserting_null($i)}`,
+	}
+	for pname, prog := range progs {
+		for _, p := range positions {
+			e := fmt.Sprintf(prog, p)
+			chs := map[string][]string{
+				"alone":    {"put", e},
+				"cat-put":  {"cat", "then", "put", e},
+				"put-cat":  {"put", e, "then", "cat"},
+				"put-tac":  {"put", e, "then", "tac"},
+				"3rd-of-3": {"cat", "then", "cat", "then", "put", e},
+				"2nd-of-3": {"cat", "then", "put", e, "then", "cat"},
+			}
+			if quick && pname != "typed-local" {
+				chs = map[string][]string{"alone": chs["alone"], "put-cat": chs["put-cat"]}
+			}
+			for cn, args := range chs {
+				add(cfg{Kind: "dsl-" + pname, Name: fmt.Sprintf("dsl-%s:%s:p=%d", pname, cn, p), Argv: append(args, "/vfs/in.dkvp"), Files: vf.VFS{"/vfs/in.dkvp": dkvpRecs(0)}, Must: true})
+			}
+			if pname == "typed-local" {
+				add(cfg{Kind: "dsl-" + pname, Name: fmt.Sprintf("dsl-%s:put-head1:p=%d", pname, p), Argv: []string{"put", e, "then", "head", "-n", "1", "/vfs/in.dkvp"}, Files: vf.VFS{"/vfs/in.dkvp": dkvpRecs(0)}, Must: p == 1})
+			}
+		}
+	}
+	// end-block failure
+	for _, pr := range []string{`end{int y = "abc"}`, `end{$y = asserting_null(1)}`} {
+		add(cfg{Kind: "dsl-end", Name: "dsl-end:" + pr, Argv: []string{"put", pr, "/vfs/in.dkvp"}, Files: vf.VFS{"/vfs/in.dkvp": dkvpRecs(0)}, Must: true})
+		add(cfg{Kind: "dsl-end", Name: "dsl-end-then-cat:" + pr, Argv: []string{"put", pr, "then", "cat", "/vfs/in.dkvp"}, Files: vf.VFS{"/vfs/in.dkvp": dkvpRecs(0)}, Must: true})
+	}
+	// F5 redirected-output / tee / split target whose per-file writer errors at record p
+	for _, p := range []int{2, 3, 4} {
+		f := vf.VFS{"/vfs/in.dkvp": dkvpRecs(p)}
+		add(cfg{Kind: "tee-redirect-writer", Name: fmt.Sprintf("tee-redirect-writer:put-q-tee:p=%d", p), Argv: []string{"--ocsv", "put", "-q", `tee > "@T", $*`, "/vfs/in.dkvp"}, Files: f, Must: true})
+		add(cfg{Kind: "tee-redirect-writer", Name: fmt.Sprintf("tee-redirect-writer:emit:p=%d", p), Argv: []string{"--ocsv", "put", "-q", `emit > "@T", $*`, "/vfs/in.dkvp"}, Files: f, Must: true})
+		add(cfg{Kind: "tee-verb-writer", Name: fmt.Sprintf("tee-verb-writer:tee-then-put-q:p=%d", p), Argv: []string{"--ocsv", "tee", "@T", "then", "put", "-q", "true", "/vfs/in.dkvp"}, Files: f, Must: true})
+		add(cfg{Kind: "split-writer", Name: fmt.Sprintf("split-writer:split-n-then-nothing:p=%d", p), Argv: []string{"--ocsv", "split", "-n", "10", "--prefix", "@D/sp", "/vfs/in.dkvp"}, Files: f, Must: true})
+	}
+	for _, tgt := range []string{"tee", "print", "emit", "dump"} {
+		st := map[string]string{"tee": `tee > "/nonexistent-dir/x", $*`, "print": `print > "/nonexistent-dir/x", "a"`, "emit": `emit > "/nonexistent-dir/x", $*`, "dump": `dump > "/nonexistent-dir/x"`}[tgt]
+		add(cfg{Kind: "redirect-unwritable", Name: "redirect-unwritable:" + tgt, Argv: []string{"put", "-q", st, "/vfs/in.dkvp"}, Files: vf.VFS{"/vfs/in.dkvp": dkvpRecs(0)}, Must: true})
+	}
+	add(cfg{Kind: "redirect-unwritable", Name: "redirect-unwritable:tee-verb", Argv: S("tee /nonexistent-dir/x /vfs/in.dkvp"), Files: vf.VFS{"/vfs/in.dkvp": dkvpRecs(0)}, Must: true})
+	add(cfg{Kind: "redirect-unwritable", Name: "redirect-unwritable:split-verb", Argv: S("split -n 2 --prefix /nonexistent-dir/x /vfs/in.dkvp"), Files: vf.VFS{"/vfs/in.dkvp": dkvpRecs(0)}, Must: true})
+	// F6 stdout write failure at the n-th write
+	for _, n := range []int{1, 2, 4} {
+		add(cfg{Kind: "stdout-write", Name: fmt.Sprintf("stdout-write:fflush-cat:n=%d", n), Argv: S("--fflush cat /vfs/in.dkvp"), Files: vf.VFS{"/vfs/in.dkvp": dkvpRecs(0)}, FailW: n, Must: true})
+		add(cfg{Kind: "stdout-write", Name: fmt.Sprintf("stdout-write:fflush-put-print:n=%d", n), Argv: []string{"--fflush", "put", "-q", "print $i", "/vfs/in.dkvp"}, Files: vf.VFS{"/vfs/in.dkvp": dkvpRecs(0)}, FailW: n, Must: true})
+	}
+	add(cfg{Kind: "stdout-write", Name: "stdout-write:final-flush-cat", Argv: S("cat /vfs/in.dkvp"), Files: vf.VFS{"/vfs/in.dkvp": dkvpRecs(0)}, FailW: 1, Must: true})
+	add(cfg{Kind: "stdout-write", Name: "stdout-write:final-flush-tac", Argv: S("tac /vfs/in.dkvp"), Files: vf.VFS{"/vfs/in.dkvp": dkvpRecs(0)}, FailW: 1, Must: true})
+	add(cfg{Kind: "stdout-write", Name: "stdout-write:final-flush-ojson", Argv: S("--ojson cat /vfs/in.dkvp"), Files: vf.VFS{"/vfs/in.dkvp": dkvpRecs(0)}, FailW: 1, Must: true})
+	// F7 read error after k bytes, per reader
+	type rd struct{ flag, file, text string }
+	readers := []rd{
+		{"--idkvp", "/vfs/in.dkvp", dkvpRecs(0)}, {"--inidx", "/vfs/in.nidx", "1 a\n2 a\n3 a\n4 a\n"}, {"--icsv", "/vfs/in.csv", csvRecs(0, "")},
+		{"--icsvlite", "/vfs/in.csv", csvRecs(0, "")}, {"--itsv", "/vfs/in.tsv", strings.ReplaceAll(csvRecs(0, ""), ",", "\t")}, {"--ijson", "/vfs/in.json", jsonRecs(0, "")},
+		{"--ixtab", "/vfs/in.xtab", "i 1\ng a\n\ni 2\ng a\n\ni 3\ng a\n"}, {"--ipprint", "/vfs/in.pprint", "i g\n1 a\n2 a\n3 a\n4 a\n"},
+		{"--imd", "/vfs/in.md", "| i | g |\n| --- | --- |\n| 1 | a |\n| 2 | a |\n"}, {"--ijsonl", "/vfs/in.jsonl", jsonRecs(0, "")},
+		{"--iyaml", "/vfs/in.yaml", "- i: 1\n  g: a\n- i: 2\n  g: a\n"}, {"--idkvpx", "/vfs/in.dkvpx", dkvpRecs(0)},
+	}
+	for _, r := range readers {
+		ks := []int{0, len(r.text) / 2, len(r.text)}
+		// at every line boundary in thorough
+		if !quick {
+			ks = []int{0}
+			for i, ch := range r.text {
+				if ch == '\n' {
+					ks = append(ks, i, i+1)
+				}
+			}
+		}
+		seen := map[int]bool{}
+		for _, k := range ks {
+			if seen[k] || k > len(r.text) {
+				continue
+			}
+			seen[k] = true
+			add(cfg{Kind: "read-error" + r.flag, Name: fmt.Sprintf("read-error:%s:cat:k=%d", r.flag, k), Argv: []string{r.flag, "--ojson", "cat", r.file}, Files: vf.VFS{r.file: r.text},
+				ReadAt: map[string]int{r.file: k}, Must: true, Bs: []int{1, 2, 500}})
+		}
+	}
+	// F8 missing file at list position i of 3
+	for i := 1; i <= 3; i++ {
+		names := []string{"/vfs/a.dkvp", "/vfs/b.dkvp", "/vfs/c.dkvp"}
+		files := vf.VFS{}
+		for j, n := range names {
+			if j+1 != i {
+				files[n] = "i=1,g=a\ni=2,g=a\n"
+			} else {
+				names[j] = "/nonexistent-dir/missing.dkvp"
+			}
+		}
+		for _, ch := range []chainT{{"cat", S("cat"), true}, {"sort", S("sort -f g"), true}, {"head1", S("head -n 1"), false}} {
+			add(cfg{Kind: "missing-file", Name: fmt.Sprintf("missing-file:%s:pos=%d", ch.name, i), Argv: append(append([]string{}, ch.args...), names...), Files: files, Must: ch.must || i == 1, Bs: []int{1, 2, 3}})
+		}
+	}
+	return out
+}
+
+// ---------------------------------------------------------------- exploration
+
+func trunc(s string, n int) string {
+	if len(s) > n {
+		return s[:n] + "..."
+	}
+	return s
+}
+
+func exploreCfg(w *vf.Worker, c *cfg, b int, dir string) {
+	tee := filepath.Join(dir, "tee.out")
+	var argv []string
+	argv = append(argv, "--records-per-batch", fmt.Sprint(b))
+	for _, a := range c.Argv {
+		a = strings.ReplaceAll(a, "@T", tee)
+		a = strings.ReplaceAll(a, "@D", dir)
+		argv = append(argv, a)
+	}
+	var fw *failingWriter
+	var stderrText string
+	spec := vf.ExploreSpec{
+		Before: func() {
+			os.Remove(tee)
+			matches, _ := filepath.Glob(filepath.Join(dir, "sp*"))
+			for _, m := range matches {
+				os.Remove(m)
+			}
+		},
+		Body: func() string {
+			o := vf.MlrOpts{Files: c.Files}
+			if c.ReadAt != nil {
+				o.Open = func(path string) (io.ReadCloser, error, bool) {
+					if k, ok := c.ReadAt[path]; ok {
+						return &failingReader{data: []byte(c.Files[path]), lim: k, err: errors.New("verif: injected read failure (EIO)")}, nil, true
+					}
+					return nil, nil, false
+				}
+			}
+			fw = nil
+			if c.FailW > 0 {
+				fw = &failingWriter{failAt: c.FailW}
+				o.Out = fw
+			}
+			_, err := vf.InvokeMlr(argv, o)
+			if err != nil {
+				return "FAIL err=" + err.Error()
+			}
+			return "OK"
+		},
+		After: func(o string, r *verifrt.Result) string {
+			stderrText = vf.TakeStderr()
+			if strings.HasPrefix(o, "FAULT exit(") && !strings.HasPrefix(o, "FAULT exit(0)") {
+				if strings.TrimSpace(stderrText) == "" {
+					return "FAIL-SILENT " + o
+				}
+				return "FAIL exit"
+			}
+			if strings.HasPrefix(o, "FAIL err=") {
+				return "FAIL err"
+			}
+			if o == "OK" && fw != nil && !fw.fired {
+				return "OK-fault-not-fired"
+			}
+			return o
+		},
+		MaxExecs:  40000,
+		MaxSteps:  4000,
+		StallSecs: 10,
+	}
+	r := vf.Explore(spec)
+	if os.Getenv("VERIF_C17_TRACE") != "" {
+		fmt.Fprintf(vf.RealStderr(), "  explore %s b=%d: execs=%d completed=%d cut=%d states=%d transitions=%d deadlocks=%d horizons=%d faults=%d maxdepth=%d maxsteps=%d exhaustive=%v stalled=%v\n",
+			c.Name, b, r.Execs, r.Completed, r.Cut, r.States, r.Transitions, r.Deadlocks, r.Horizons, len(r.Faults), r.MaxDepth, r.MaxSteps, r.Exhaustive, r.Stalled)
+	}
+	w.Rep.States += r.States
+	w.Rep.Transitions += r.Transitions
+	w.Eval(int64(r.Execs))
+	w.Count("executions_completed", int64(r.Completed))
+	w.Count("configurations", 1)
+	w.Count("kind:"+c.Kind, 1)
+	key := fmt.Sprintf("%s|b=%d", c.Name, b)
+	rp := func(sched []int) map[string]any {
+		return map[string]any{"config": c.Name, "b": b, "argv": argv, "files": c.Files, "read_fail_after": c.ReadAt, "stdout_write_fails_at": c.FailW, "schedule": sched}
+	}
+	if r.Stalled {
+		w.Violation("stall:"+key, "a goroutine ran 10 s without reaching a scheduling point (spin / non-termination; normal steps take microseconds) in "+key, rp(r.StalledAt))
+		w.Abandon() // the runaway goroutine cannot be reaped: leave this process, the parent resumes after this case
+	}
+	if !r.Exhaustive {
+		w.Inexhaustive(fmt.Sprintf("%s: execution budget hit (states=%d)", key, r.States))
+	}
+	if r.Branchings > 0 {
+		w.Nontrivial(1)
+	}
+	if r.Deadlocks > 0 {
+		w.Violation("deadlock:"+key, fmt.Sprintf("deadlock (hang) in %d of %d executions of %s (blocked: %s)", r.Deadlocks, r.Execs, key, strings.Join(r.Blocked, " ")), rp(r.DeadlockAt))
+	}
+	if r.Horizons > 0 {
+		w.Violation("horizon:"+key, fmt.Sprintf("step horizon exceeded in %d executions of %s (the run does not terminate)", r.Horizons, key), rp(r.HorizonAt))
+	}
+	fails, oks := 0, 0
+	for f, n := range r.Faults {
+		switch {
+		case f == "FAIL exit":
+			fails += n
+		case strings.HasPrefix(f, "FAIL-SILENT"):
+			w.Violation("silent-exit:"+key, fmt.Sprintf("%s: process exit with empty stderr in %d executions: %s", key, n, f), rp(r.FaultAt[f]))
+		case strings.HasPrefix(f, "FAULT exit(0)"):
+			oks += n
+			if c.Must {
+				w.Violation("exit0:"+key, fmt.Sprintf("%s: os.Exit(0) although the fault was reached (%d executions)", key, n), rp(r.FaultAt[f]))
+			}
+		default:
+			w.Violation("panic:"+key, fmt.Sprintf("%s: %s (%d executions)", key, trunc(f, 400), n), rp(r.FaultAt[f]))
+		}
+	}
+	for o, n := range r.Outcomes {
+		switch o {
+		case "FAIL err":
+			fails += n
+		case "OK":
+			oks += n
+			if c.Must {
+				w.Violation("lost-error:"+key, fmt.Sprintf("%s: Stream returned nil (exit 0) in %d of %d complete executions although the fault was reached; failing executions: %d", key, n, r.Completed, fails), rp(r.Witness[o]))
+			}
+		case "OK-fault-not-fired":
+			w.Count("vacuous_fault_not_fired", int64(n))
+		}
+	}
+	w.Count("failing_executions", int64(fails))
+	w.Count("succeeding_executions", int64(oks))
+	if fails == 0 && r.Deadlocks == 0 && r.Horizons == 0 {
+		w.Count("configs_where_fault_never_surfaced", 1)
+	}
+	w.AddSet("outcome-classes", fmt.Sprintf("%s fails=%v oks=%v", c.Kind, fails > 0, oks > 0))
+	if len(w.Rep.Samples) < 2 {
+		w.Sample(map[string]any{"config": c.Name, "argv": argv, "b": b, "must_fail": c.Must, "executions": r.Execs, "states": r.States, "failing_executions": fails, "succeeding_executions": oks})
+	}
+}
+
+func schedWorker(w *vf.Worker) {
+	if !verifrt.Instrumented {
+		w.Broken("C17 sched worker started in a build without sched instrumentation")
+		return
+	}
+	dir, err := os.MkdirTemp("/dev/shm", "verif-c17-")
+	if err != nil {
+		w.Broken("tempdir: %v", err)
+		return
+	}
+	defer os.RemoveAll(dir)
+	cs := configs(w.Quick())
+	var idx uint64
+	for i := range cs {
+		for _, b := range cs[i].Bs {
+			idx++
+			if !w.Mine(idx) {
+				continue
+			}
+			w.Begin(idx)
+			w.Label(func() string { return fmt.Sprintf("%s|b=%d", cs[i].Name, b) })
+			t0 := time.Now()
+			exploreCfg(w, &cs[i], b, dir)
+			if os.Getenv("VERIF_C17_TRACE") != "" {
+				fmt.Fprintf(vf.RealStderr(), "%6.2fs idx=%d %s|b=%d evals=%d\n", time.Since(t0).Seconds(), idx, cs[i].Name, b, w.Rep.Evaluations)
+			}
+		}
+	}
+}
+
+// ---------------------------------------------------------------- real-binary layer: exit status and diagnostic
+
+type binCase struct {
+	name   string
+	sh     string // shell command; $MLR is the binary, $D a scratch dir
+	expect string // "fail" | "ok"
+}
+
+func binCases() []binCase {
+	return []binCase{
+		{"missing-file", `$MLR cat $D/nosuch`, "fail"},
+		{"missing-file-2nd", `$MLR cat $D/ok.dkvp $D/nosuch`, "fail"},
+		{"missing-file-then", `$MLR cat then put '$z=1' $D/nosuch`, "fail"},
+		{"directory-as-input-dkvp", `$MLR cat $D`, "fail"},
+		{"directory-as-input-csv", `$MLR --icsv --ojson cat $D`, "fail"},
+		{"directory-as-input-json", `$MLR --ijson --ojson cat $D`, "fail"},
+		{"directory-as-input-nidx", `$MLR --inidx --ojson cat $D`, "fail"},
+		{"directory-as-input-xtab", `$MLR --ixtab --ojson cat $D`, "fail"},
+		{"directory-as-input-tsv", `$MLR --itsv --ojson cat $D`, "fail"},
+		{"directory-as-input-pprint", `$MLR --ipprint --ojson cat $D`, "fail"},
+		{"unreadable-file", `chmod 000 $D/secret.dkvp; setpriv --reuid=65534 --regid=65534 --clear-groups $MLR cat $D/secret.dkvp`, "fail"},
+		{"dev-full-cat", `$MLR cat $D/ok.dkvp > /dev/full`, "fail"},
+		{"dev-full-big", `$MLR cat $D/big.dkvp > /dev/full`, "fail"},
+		{"dev-full-json", `$MLR --ojson cat $D/ok.dkvp > /dev/full`, "fail"},
+		{"dev-full-print", `$MLR -n put 'end{print "x"}' > /dev/full`, "fail"},
+		{"dev-full-tac", `$MLR tac $D/ok.dkvp > /dev/full`, "fail"},
+		{"dev-full-pprint", `$MLR --opprint cat $D/ok.dkvp > /dev/full`, "fail"},
+		{"tee-dev-full", `$MLR tee /dev/full $D/big.dkvp`, "fail"},
+		{"tee-redirect-dev-full", `$MLR put -q 'tee > "/dev/full", $*' $D/big.dkvp`, "fail"},
+		{"print-redirect-dev-full", `$MLR put -q 'print > "/dev/full", $i' $D/big.dkvp`, "fail"},
+		{"emit-redirect-dev-full", `$MLR put -q 'emit > "/dev/full", $*' $D/big.dkvp`, "fail"},
+		{"dump-redirect-dev-full", `$MLR put -q '@x[NR]=$i; end{dump > "/dev/full"}' $D/big.dkvp`, "fail"},
+		{"split-unwritable-dir", `$MLR split -n 2 --prefix /nonexistent-dir/x $D/ok.dkvp`, "fail"},
+		{"tee-unwritable", `$MLR tee /nonexistent-dir/x $D/ok.dkvp`, "fail"},
+		{"pipe-redirect-failing-cmd", `$MLR put -q 'print | "exit 3", $i' $D/ok.dkvp`, "any"},
+		{"csv-ragged", `printf 'a,b\n1,2\n3\n' | $MLR --icsv --ojson cat`, "fail"},
+		{"csv-ragged-head", `printf 'a,b\n1\n3,4\n' | $MLR --icsv --ojson cat`, "fail"},
+		{"json-syntax", `printf '{"a":1}\n{"a":\n' | $MLR --ijson --ojson cat`, "fail"},
+		{"dsl-parse-error", `$MLR -n put '$x ='`, "fail"},
+		{"dsl-runtime-typed-local", `$MLR put 'int y = "abc"' $D/ok.dkvp`, "fail"},
+		{"dsl-runtime-end", `$MLR put 'end{int y = "abc"}' $D/ok.dkvp`, "fail"},
+		{"ocsv-schema-change", `printf 'a=1,b=2\nc=3\n' | $MLR --ocsv cat`, "fail"},
+		{"ocsv-schema-change-tee", `printf 'a=1,b=2\nc=3\n' | $MLR --ocsv put -q 'tee > "'$D'/t.csv", $*'`, "fail"},
+		{"nosuch-verb", `$MLR nosuchverb $D/ok.dkvp`, "fail"},
+		{"bad-flag", `$MLR --nosuchflag cat $D/ok.dkvp`, "fail"},
+		{"gz-corrupt", `printf 'not gzip' > $D/x.gz; $MLR --gzin cat $D/x.gz`, "fail"},
+		{"prepipe-failing", `$MLR --prepipe 'false' cat $D/ok.dkvp`, "any"},
+		{"ok-cat", `$MLR cat $D/ok.dkvp`, "ok"},
+		{"ok-head", `$MLR head -n 1 $D/big.dkvp`, "ok"},
+		{"ok-empty", `$MLR cat /dev/null`, "ok"},
+	}
+}
+
+func binaryWorker(w *vf.Worker) {
+	mlr := vf.MlrBin()
+	if mlr == "" {
+		w.Broken("no plain mlr binary (VERIF_BIN_MLR)")
+		return
+	}
+	cases := binCases()
+	for i, bc := range cases {
+		idx := uint64(i + 1)
+		if !w.Mine(idx) {
+			continue
+		}
+		w.Begin(idx)
+		w.Label(func() string { return bc.name })
+		dir, err := os.MkdirTemp("/dev/shm", "verif-c17b-")
+		if err != nil {
+			w.Broken("tempdir: %v", err)
+			return
+		}
+		os.Chmod(dir, 0755)
+		os.WriteFile(filepath.Join(dir, "ok.dkvp"), []byte("i=1,g=a\ni=2,g=b\n"), 0644)
+		os.WriteFile(filepath.Join(dir, "secret.dkvp"), []byte("i=1\n"), 0644)
+		var big strings.Builder
+		for k := 0; k < 3000; k++ {
+			fmt.Fprintf(&big, "i=%d,g=abcdefghij\n", k)
+		}
+		os.WriteFile(filepath.Join(dir, "big.dkvp"), []byte(big.String()), 0644)
+		// a hang is decided by a generous deadline (normal duration: ~10 ms) and re-run 3x
+		hangs, code, stderr := 0, 0, ""
+		for attempt := 0; attempt < 3; attempt++ {
+			var timedOut bool
+			code, stderr, timedOut = runShell(bc.sh, mlr, dir, 30*time.Second)
+			if !timedOut {
+				hangs = 0
+				break
+			}
+			hangs++
+		}
+		os.Chmod(filepath.Join(dir, "secret.dkvp"), 0644)
+		os.RemoveAll(dir)
+		w.Eval(1)
+		w.Nontrivial(1)
+		rp := map[string]any{"command": bc.sh, "exit": code, "stderr": trunc(stderr, 500)}
+		if hangs == 3 {
+			w.Violation("binary-hang:"+bc.name, fmt.Sprintf("`%s` did not terminate within 30 s in 3 of 3 runs (unbounded output or hang)", bc.sh), rp)
+			continue
+		}
+		switch bc.expect {
+		case "fail":
+			if code == 0 {
+				w.Violation("binary-exit0:"+bc.name, fmt.Sprintf("`%s` exits 0 (stderr %q): the failure is silent", bc.sh, trunc(stderr, 200)), rp)
+			} else if !strings.Contains(stderr, "mlr") {
+				w.Violation("binary-nodiag:"+bc.name, fmt.Sprintf("`%s` exits %d without an mlr diagnostic on stderr (%q)", bc.sh, code, trunc(stderr, 200)), rp)
+			}
+		case "ok":
+			if code != 0 {
+				w.Violation("binary-spurious-failure:"+bc.name, fmt.Sprintf("`%s` exits %d (%q)", bc.sh, code, trunc(stderr, 200)), rp)
+			}
+		}
+		if strings.Contains(stderr, "goroutine ") && strings.Contains(stderr, "panic") {
+			w.Violation("binary-panic:"+bc.name, fmt.Sprintf("`%s` dies with a Go panic: %s", bc.sh, trunc(stderr, 300)), rp)
+		}
+		if i < 2 {
+			w.Sample(rp)
+		}
+	}
+}
+
+func runShell(sh, mlr, dir string, deadline time.Duration) (code int, stderr string, timedOut bool) {
+	cmd := exec.Command("/bin/sh", "-c", sh)
+	cmd.Env = append(os.Environ(), "MLR="+mlr, "D="+dir, "MLRRC=__none__")
+	cmd.SysProcAttr = &syscall.SysProcAttr{Setpgid: true}
+	var eb bytes.Buffer
+	cmd.Stderr = &limitedWriter{w: &eb, n: 1 << 16}
+	cmd.Stdout = &limitedWriter{w: io.Discard, n: 1 << 62}
+	if err := cmd.Start(); err != nil {
+		return -1, err.Error(), false
+	}
+	done := make(chan error, 1)
+	go func() { done <- cmd.Wait() }()
+	select {
+	case err := <-done:
+		if err != nil {
+			if ee, ok := err.(*exec.ExitError); ok {
+				return ee.ExitCode(), eb.String(), false
+			}
+			return -1, err.Error(), false
+		}
+		return 0, eb.String(), false
+	case <-time.After(deadline):
+		syscall.Kill(-cmd.Process.Pid, syscall.SIGKILL)
+		<-done
+		return -1, eb.String(), true
+	}
+}
+
+type limitedWriter struct {
+	w io.Writer
+	n int
+}
+
+func (l *limitedWriter) Write(p []byte) (int, error) {
+	if l.n > 0 {
+		k := len(p)
+		if k > l.n {
+			k = l.n
+		}
+		l.w.Write(p[:k])
+		l.n -= k
+	}
+	return len(p), nil
+}
+
+func run(c *vf.Ctx) {
+	c.Rule = "fault configurations = fault kind x position (record index / byte offset / write index / file position) x verb chain (failing verb in each chain position) x --records-per-batch; each is explored over ALL goroutine schedules of the real pipeline (E1). evaluations = executions; distinct_nontrivial = fault configurations with a branching schedule space plus real-binary cases"
+	c.Assume("a fault behind an early-exit verb (head) may legitimately never be reached: there only termination is asserted")
+	c.Assume("the scheduler owns channels/selects/spawns; reads and writes are instantaneous answers of controlled readers/writers (faults are positional, not timing-dependent)")
+	c.Assume("real-binary layer: hangs are decided by a 30 s deadline (normal runs take ~10 ms), re-run 3 times")
+	cs := configs(c.Quick())
+	n := 0
+	kinds := map[string]int{}
+	for _, x := range cs {
+		n += len(x.Bs)
+		kinds[x.Kind]++
+	}
+	c.Extra["fault_configurations"] = n
+	c.Extra["fault_kinds"] = kinds
+	res := c.RunPool(vf.PoolSpec{Worker: "sched", Sched: true, Shards: 64, StallSecs: 600,
+		CrashKey: func(idx uint64, label, kind, tail string) (string, string) {
+			return "crash:" + label, fmt.Sprintf("worker %s while exploring %s: %s", kind, label, trunc(tail, 600))
+		}})
+	c.RunPool(vf.PoolSpec{Worker: "binary", Shards: len(binCases()), StallSecs: 600})
+	c.Extra["outcome_classes"] = vf.SortedSet(res, "outcome-classes")
+}
